@@ -26,7 +26,9 @@ func (core *JApiCore) processContext(d *directive.Directive, root *[]*directive.
 				core.currentContextDirective.Type() == directive.URL
 
 			if isURL {
-				if core.currentContextDirective.HasExplicitContext {
+				// The directive leaves every open context: none of them may be a
+				// parenthesized one, it could never be closed afterwards.
+				if core.HasUnclosedExplicitContext() {
 					return d.KeywordError(fmt.Sprintf(
 						"%s %q with the \"Path\" parameter",
 						jerr.IncorrectContextOfDirective,
